@@ -2,7 +2,7 @@ SPECIFICATION TraceSpec
 CONSTANTS
   P = 3
   S = 3
-  Checked = {"latest", "snap", "batch", "efos", "view", "pos", "rk", "mask", "batchleak", "crash10", "crash11", "reopen", "close"}
+  Checked = {"latest", "snap", "batch", "efos", "view", "pos", "rk", "mask", "batchleak", "reopen", "close", "ckpt", "scanint"}
 CONSTRAINT HWM
 POSTCONDITION TraceAccepted
 CHECK_DEADLOCK FALSE
